@@ -26,10 +26,10 @@ def _stack_povm(Ms, B):
     return np.concatenate([A.real_checked(R.coeffs(M, B), "povm") for M in Ms])
 
 
-def setup(typ, flag, mm, mp, seed):
+def setup(typ, flag, mm, mp, seed, systag="Q1"):
     """typ in qst/povmt/qpt/qmpt; mp = outcomes of the tester POVMs (povmt: of the estimated POVM);
-    mm = outcomes of the estimated mprocess (qmpt only)."""
-    key = (typ, bool(flag), mm, mp, int(seed))
+    mm = outcomes of the estimated mprocess (qmpt only); systag Q1 (qubit) or Q3 (qutrit)."""
+    key = (typ, bool(flag), mm, mp, int(seed), systag)
     if key in _SETUP:
         return _SETUP[key]
     from quara.protocol.qtomography.standard.standard_qst import StandardQst
@@ -37,23 +37,24 @@ def setup(typ, flag, mm, mp, seed):
     from quara.protocol.qtomography.standard.standard_qpt import StandardQpt
     from quara.protocol.qtomography.standard.standard_qmpt import StandardQmpt
     su = Setup()
-    su.typ, su.flag, su.mm, su.mp, su.seed = typ, bool(flag), mm, mp, seed
+    su.typ, su.flag, su.mm, su.mp, su.seed, su.systag = typ, bool(flag), mm, mp, seed, systag
     kind = KIND[typ]
-    F = frame(kind, "Q1", {"qst": None, "povmt": mp, "qpt": None, "qmpt": mm}[typ])
+    d = A.dim_of(systag)
+    F = frame(kind, systag, {"qst": None, "povmt": mp, "qpt": None, "qmpt": mm}[typ])
     su.F, su.kind = F, kind
     c, B, D = F.c_sys, F.B, F.D
-    st = A.states_ref(2, seed)
+    st = A.states_ref(d, seed)
     states = [st[k] for k in ("z0", "pure_generic", "pure_fourier", "mixed_generic")]
     povms = []
     if typ == "qst":
-        povms = [A.povm_generic(2, mp, seed, salt=1), A.povm_generic(2, mp, seed, salt=2)]
-        if mp == 2:
+        povms = [A.povm_generic(d, mp, seed, salt=1), A.povm_generic(d, mp, seed, salt=2)]
+        if mp == 2 and d == 2:
             povms.append([np.diag([1.0, 0.0]).astype(complex), np.diag([0.0, 1.0]).astype(complex)])
         else:
-            povms.append(A.povm_generic(2, mp, seed, salt=3))
+            povms.append(A.povm_generic(d, mp, seed, salt=3))
     elif typ in ("qpt", "qmpt"):
-        povms = [A.povm_generic(2, mp, seed, salt=1), A.povm_generic(2, mp, seed, salt=2)] if mp > 1 \
-            else [[np.eye(2, dtype=complex)]]
+        povms = [A.povm_generic(d, mp, seed, salt=1), A.povm_generic(d, mp, seed, salt=2)] if mp > 1 \
+            else [[np.eye(d, dtype=complex)]]
     su.states, su.povms = states, povms
     qs = [A.q_state(c, r) for r in states]
     qp = [A.q_povm(c, P) for P in povms]
@@ -111,15 +112,15 @@ def setup(typ, flag, mm, mp, seed):
         for k in ("mixed_generic", "maxmixed", "pure_generic", "pure_fourier"):
             base.append((k, _stack_state(st[k], B)))
     elif kind == "povm":
-        base.append(("generic7", _stack_povm(A.povm_generic(2, mp, seed, salt=7), B)))
-        base.append(("uniform", _stack_povm([np.eye(2, dtype=complex) / mp] * mp, B)))
-        base.append(("generic9", _stack_povm(A.povm_generic(2, mp, seed, salt=9), B)))
+        base.append(("generic7", _stack_povm(A.povm_generic(d, mp, seed, salt=7), B)))
+        base.append(("uniform", _stack_povm([np.eye(d, dtype=complex) / mp] * mp, B)))
+        base.append(("generic9", _stack_povm(A.povm_generic(d, mp, seed, salt=9), B)))
     elif kind == "gate":
-        g = A.gates_ref(2, seed)
+        g = A.gates_ref(d, seed)
         for k in ("kraus_generic_r2", "depolarizing", "ampdamp", "unitary_generic"):
             base.append((k, A.hs_of_kraus(c, g[k]).ravel()))
     else:
-        ins = A.instruments_ref(2, seed, ms=(mm,))
+        ins = A.instruments_ref(d, seed, ms=(mm,))
         for k in ("feedback_m%d" % mm, "luders_m%d" % mm, "multikraus_m%d" % mm):
             base.append((k, np.concatenate([A.hs_of_kraus(c, ks).ravel() for ks in ins[k]])))
     su.base = base
